@@ -191,7 +191,7 @@ func (p c15) Run(c *core.Ctx) {
 		}
 		s.tree = genTree(c, 0, s.kind == "args")
 		if many && s.kind != "file" && c.Rng.Intn(4) > 0 {
-			s.kind = "raw" // mostly plain sources, applied in the order they were added
+			s.kind = "raw"                // mostly plain sources, applied in the order they were added
 			s.tree = genTree(c, 3, false) // flat: scalars and lists only
 		}
 		if s.kind == "file" && c.Rng.Intn(4) == 0 {
